@@ -15,7 +15,14 @@ RULE = ("cases are generated per helper (workload, range, linspace, logspace, cl
         "the list templates at int and at double (signed zeros, NaN, infinities as elements), Median twice on the vector it reorders. "
         "Statistics run over the whole finite double range (data scaled by 2^e up to DBL_MAX and down to subnormals, |x| >> spread at relative 1e-16..1e-3, neighbours 1..1000 ulp apart, mixed magnitudes, "
         "even-length sets whose middle elements straddle zero, n = 1, 2, odd/even) against exact rational references with a-priori rounding slack, and the laws are checked inside one process "
-        "(op laws / wlaws: data, 2^e * data, data + t, rotated data; power-of-two scalings must be reproduced exactly)")
+        "(op laws / wlaws: data, 2^e * data, data + t, rotated data; power-of-two scalings must be reproduced exactly). "
+        "Sessions (op seq): every helper entry point right after every kind of ambient event (matrix), and random sessions of two to seven requests of any helpers in ONE process - repeated identical requests, larger-then-smaller grids, a request after one from the extreme regions "
+        "(a grid that overflows, statistics that produce NaN) - interleaved with the ambient state that unrelated code leaves behind: errno set to EDOM/ERANGE/other values, "
+        "floating-point exception flags raised, state and format flags of cout/cerr/clog/cin changed, other library facilities evaluated in and beyond their tails "
+        "(PDF_Gauss/CDF_Gauss from the centre to z = 1e160, PMF_Poisson, (Log_)Likelihood_Poisson at zero and huge expectations, PDF_Maxwell_Boltzmann, PDF_Chi_Square), "
+        "libm domain/range errors, division by zero and overflow in the caller's arithmetic, strtod range errors; every answer of a session is checked by the clauses of its own request "
+        "and compared bit for bit with the answer of the same request alone in a pristine process (the harness restores errno, the exception flags and the stream states at the start of every case line). "
+        "A session is non-trivial when one of its requests is. The rounding mode and the locale are not varied (they change what the arithmetic means, not what an earlier call left behind)")
 LEVEL_TEXT = ("Theorems (Coq, unbounded, all listed in evidence.coverage.theorems): Workload_Distribution meets its full specification for every workers >= 1 and every tasks (zero workers exit); "
               "Range enumerates exactly [min, min+-step, ...) with ceil(|max-min|/step) elements for step > 0 (a non-positive step makes the ascending loop diverge: model outcome None, outside the quantifier); "
               "Lists_Equal/Flatten/List_Contains/Find_Indices/Combine/Sub_List (entries, clamping, empty cases)/Transpose (rectangular, ragged -> exit, empty -> empty) against the standard list functions; "
@@ -23,8 +30,9 @@ LEVEL_TEXT = ("Theorems (Coq, unbounded, all listed in evidence.coverage.theorem
               "Linear_Space/Log_Space count, end points, equal spacing (in the logarithm), strict monotonicity, degenerate requests -> [min] (over R); mean/variance/standard deviation/median under translation, scaling and "
               "permutation (insertion sort is a function of the multiset), Weighted_Average with equal weights = (mean, s/sqrt N) (over R), also for data points with the default weight; "
               "Range(max) = Range(0,max) and Range(min,max) enumerate the ascending/descending unit-step range; Lists_Equal on lists of lists is equality; Transpose_Lists(v1,v2) is the list of pairs or exits; "
-              "a second Median on the reordered vector gives the same value and the vector stays a permutation of the data; Median({a,b}) = Arithmetic_Mean({a,b}). "
-              "Not theorems: the scaling/permutation laws of Weighted_Average with unequal weights (S4: exact rational evaluation of Cochran's formula); rounding behaviour of the floating-point grids and statistics (covered by correspondence, bit-identical, and by S4 with a-priori rounding slack); that std::nth_element/upper_bound/is_sorted meet their specifications. "
+              "a second Median on the reordered vector gives the same value and the vector stays a permutation of the data; Median({a,b}) = Arithmetic_Mean({a,b}); "
+              "sessions: since every helper of the model is a function of its arguments alone, the k-th answer of any session equals the answer of the same request alone in any other ambient state, whatever the earlier calls and events left behind, and a repeated request gets the same answer. "
+              "Not theorems: the scaling/permutation laws of Weighted_Average with unequal weights (S4: exact rational evaluation of Cochran's formula); rounding behaviour of the floating-point grids and statistics (covered by correspondence, bit-identical, and by S4 with a-priori rounding slack); that std::nth_element/upper_bound/is_sorted meet their specifications; that the C++ helpers read no ambient process state (errno, exception flags, stream state) and keep no statics is a fact about the code, tied by correspondence on sessions and by the fresh-process comparison, not a theorem. "
               "The Gallina model is the term that is extracted and run against the C++ helpers on every run, and every clause of the property is also evaluated on the implementation's output.")
 LEVEL_NOTE = ("Coq 8.16.1 kernel; theorems over Z/nat/lists are axiom-free, theorems over R use the standard library's real-number axioms (listed in the evidence); "
               "hand-written model tied by differential correspondence (extraction with ExtrOcamlBasic only); std::nth_element/upper_bound/is_sorted modelled by their specifications")
@@ -437,6 +445,130 @@ def overload_cases(rng, big):
     return cs
 
 
+# ---- sessions: several requests in one process, and the ambient process state --------------------------------------------------
+# A session is `seq n L1 <sub-case 1> L2 <sub-case 2> ...` (Lk = number of tokens of sub-case k); both sides answer the sub-cases one
+# after the other in ONE process and separate the answers by `|`.  Sub-cases are ordinary requests of this file (never one that ends
+# the process) and ambient events `amb_*` (answer `.`), which put the process into a state that earlier, unrelated code leaves behind:
+#   amb_errno n                      errno = n
+#   amb_fe m                         raise floating-point exception flags (1 invalid, 2 div-by-zero, 4 overflow, 8 underflow, 16 inexact)
+#   amb_stream cout|cerr|clog|cin w  state / format flags of a standard stream (failbit, badbit, eofbit, fixed, scientific, prec<n>, ...)
+#   amb_call f args                  another facility of the library (densities in and beyond their tails, likelihoods at zero)
+#   amb_libm f x y                   the caller's own arithmetic (domain and range errors of libm, division by zero, overflow, strtod)
+# The harness puts errno, the exception flags and the four standard streams back to their pristine state at the start of every case
+# line, so a case means the same alone (replay) and inside a run.  The rounding MODE and the locale are not driven: they change what
+# the arithmetic / the caller's number parsing means, not what an earlier call left behind.
+GAUSS_Z = [0.0, 1.0, 5.0, 30.0, 37.0, 37.6, 38.0, 38.4, 38.5, 38.6, 38.7, 39.0, 40.0, 100.0, 1e5, 1e160]
+AMB_CALLS = [("pmf_poisson", "{} {}", [(800.0, 0), (1000.0, 0), (745.0, 0), (744.0, 0), (0.5, 3), (1e-300, 5), (1e-200, 3), (30.0, 500), (0.0, 0), (0.0, 4), (5.0, 5)]),
+             ("lik_poisson", "{} {} {}", [(1000.0, 0, 0.0), (800.0, 0, 0.0), (0.0, 3, 0.0), (5.0, 5, 0.5), (1e4, 1, 0.0), (0.0, 0, 0.0), (700.0, 2, 50.0)]),
+             ("loglik_poisson", "{} {} {}", [(0.0, 3, 0.0), (-1.0, 2, 0.0), (5.0, 5, 0.5), (1e308, 1, 1e308)]),
+             ("pdf_maxwell", "{} {}", [(1e5, 1.0), (40.0, 1.0), (39.0, 1.0), (1e200, 1.0), (1.0, 1.0), (1e-200, 1.0), (1.0, 1e-110)]),
+             ("pdf_chi2", "{} {}", [(1e4, 2.0), (2000.0, 3.0), (1.0, 1.0), (1e-320, 0.5), (1500.0, 2.0)])]
+AMB_LIBM = [("log", -1.0, 0.0), ("log", 0.0, 0.0), ("log", 2.0, 0.0), ("log10", 0.0, 0.0), ("log10", -3.0, 0.0), ("sqrt", -1.0, 0.0), ("sqrt", 2.0, 0.0), ("exp", 1000.0, 0.0),
+            ("exp", -1000.0, 0.0), ("exp", -745.2, 0.0), ("exp", -740.0, 0.0), ("exp", 709.9, 0.0), ("acos", 2.0, 0.0), ("pow", -1.0, 0.5), ("pow", 10.0, 400.0),
+            ("pow", 10.0, -400.0), ("pow", 0.0, -1.0), ("lgamma", -1.0, 0.0), ("tgamma", 0.0, 0.0), ("tgamma", 200.0, 0.0), ("tgamma", -1.0, 0.0), ("fmod", 1.0, 0.0),
+            ("div", 1.0, 0.0), ("div", 0.0, 0.0), ("mul", 1e200, 1e200), ("mul", 1e-200, 1e-200), ("strtod", 1.0, 0.0), ("strtod", -1.0, 0.0)]
+AMB_STREAM = ["failbit", "badbit", "eofbit", "fixed", "scientific", "hexfloat", "showpos", "showpoint", "uppercase", "boolalpha", "hex", "noskipws", "width", "fill", "prec0", "prec3", "prec17"]
+ERRNOS = [33, 34, 33, 34, 33, 34, 22, 2, 4, 11, 12, 75, 84]          # EDOM, ERANGE, EINVAL, ENOENT, EINTR, EAGAIN, ENOMEM, EOVERFLOW, EILSEQ
+
+
+def ambient_event(rng):
+    """one event of the caller's side; returns (sub-case, kind)"""
+    r = rng.random()
+    if r < 0.22: return f"amb_errno {rng.choice(ERRNOS + [rng.randint(1, 133)])}", "errno"
+    if r < 0.36: return f"amb_fe {rng.choice([1, 2, 4, 8, 16, 24, 20, 31, rng.randint(1, 31)])}", "fe-flags"
+    if r < 0.46: return f"amb_stream {rng.choice(['cout', 'cout', 'cerr', 'cerr', 'clog', 'cin'])} {rng.choice(AMB_STREAM)}", "stream"
+    if r < 0.62:     # a Gaussian density / distribution function from its centre to far beyond the point where exp underflows (z = 38.6), any scale
+        sg = rng.choice([1.0, 1.0, 10 ** rng.uniform(-3, 3), 10 ** rng.uniform(-150, 150)]); mu = rng.choice([0.0, 0.0, rng.uniform(-5, 5), 1e6])
+        z = rng.choice(GAUSS_Z + [rng.uniform(36, 41)]); x = _fin(mu + rng.choice([-1, 1]) * z * sg)
+        return f"amb_call {rng.choice(['pdf_gauss', 'pdf_gauss', 'cdf_gauss'])} {hx(x)} {hx(mu)} {hx(sg)}", "library-call"
+    if r < 0.80:
+        f, fmt, args = rng.choice(AMB_CALLS); a = rng.choice(args)
+        return f"amb_call {f} " + fmt.format(*[hx(v) if isinstance(v, float) else v for v in a]), "library-call"
+    f, x, y = rng.choice(AMB_LIBM)
+    return f"amb_libm {f} {hx(x)} {hx(y)}", "libm"
+
+
+def seq_line(subs): return f"seq {len(subs)} " + " ".join(f"{len(x.split())} {x}" for x in subs)
+
+
+def seq_parse(line):
+    t = line.split(); n = int(t[1]); k = 2; subs = []
+    for _ in range(n):
+        L = int(t[k]); subs.append(" ".join(t[k + 1:k + 1 + L])); k += 1 + L
+    return subs
+
+
+def never_exits(line):
+    """does this request return on a correct library (decided from the request alone)?"""
+    t = line.split(); op = t[0]
+    if op == "workload": return int(t[1]) > 0
+    if op == "closest":
+        v = parse_vals(line)[1:]; n = v[0]; l = v[1:1 + n]
+        return n > 0 and all(x <= y for x, y in zip(l, l[1:]))
+    if op in ("transpose", "transpose_d"):
+        k = 2; lens = set()
+        for _ in range(int(t[1])):
+            lens.add(int(t[k])); k += 1 + int(t[k])
+        return len(lens) <= 1
+    if op in ("transpose2", "transpose2_d"): return int(t[1]) == int(t[2 + int(t[1])])
+    return op != "seq"
+
+
+SESSION_GROUPS = [(("logspace",), 30), (("linspace",), 12), (("mean", "variance", "stddev", "median", "median2", "wavg", "wavg1", "laws", "wlaws"), 28), (("closest",), 8),
+                  (("workload", "range", "range1", "range2", "lists_equal", "combine", "flatten", "contains", "find_indices", "sub_list", "transpose", "lists_equal2", "transpose2",
+                    "lists_equal_d", "lists_equal2_d", "combine_d", "flatten_d", "contains_d", "find_indices_d", "sub_list_d", "transpose_d", "transpose2_d"), 22)]
+EXTREME_TAGS = {"logspace-extreme", "linspace-extreme", "stat-top", "stat-wide-huge", "stat-straddle", "logspace-wide"}
+
+
+def session_cases(rng, pool, count, maxtok):
+    """sessions over the requests already generated (pool): polluted by ambient events, interleaved, repeated, after requests from the extreme regions"""
+    by = {}; extreme = []
+    for c in pool:
+        if c.line.count(" ") >= maxtok or not never_exits(c.line): continue
+        by.setdefault(c.line.split(None, 1)[0], []).append(c)
+        if EXTREME_TAGS & set(c.tags): extreme.append(c)
+    groups = [([o for o in ops if o in by], w) for ops, w in SESSION_GROUPS]; groups = [(o, w) for o, w in groups if o]
+    if not groups: return []
+    def pick(op=None):
+        if op is None: op = rng.choice(rng.choices([g for g, _ in groups], [w for _, w in groups])[0])
+        return rng.choice(by[op])
+    def grid_twin(c):      # the same end points and count on the other grid (positive end points only)
+        t = c.line.split()
+        return Case(("linspace " if t[0] == "logspace" else "logspace ") + " ".join(t[1:]), c.tags, tol=(1e-9, 1e-320))
+    cs = []
+    # systematically: every helper entry point right after every kind of ambient event (the random sessions below add volume and longer histories)
+    g40 = f"amb_call pdf_gauss {hx(40.0)} {hx(0.0)} {hx(1.0)}"
+    for op in sorted(by):
+        for e, k in [("amb_errno 33", "errno"), ("amb_errno 34", "errno"), ("amb_fe 31", "fe-flags"), (f"amb_fe {rng.choice([1, 2, 4, 8, 16])}", "fe-flags"),
+                     ("amb_stream cout failbit", "stream"), ("amb_stream cout " + rng.choice(AMB_STREAM[3:]), "stream"), ("amb_stream cerr " + rng.choice(AMB_STREAM[:3]), "stream"),
+                     ("amb_stream cerr " + rng.choice(AMB_STREAM[3:]), "stream"), ("amb_stream clog " + rng.choice(AMB_STREAM), "stream"), ("amb_stream cin " + rng.choice(AMB_STREAM[:3]), "stream"),
+                     (g40, "library-call"), (f"amb_call loglik_poisson {hx(-1.0)} 2 {hx(0.0)}", "library-call"), (f"amb_libm sqrt {hx(-1.0)} {hx(0.0)}", "libm"),
+                     (f"amb_libm exp {hx(1000.0)} {hx(0.0)}", "libm")]:
+            a = pick(op); b = pick(op)
+            cs.append(Case(seq_line([e, a.line, b.line]), ("seq", "session-matrix", "amb-" + k), tol=(max((a.tol or TOL)[0], (b.tol or TOL)[0]), max((a.tol or TOL)[1], (b.tol or TOL)[1]))))
+    for _ in range(count):
+        r = rng.random(); kinds = set(); items = []
+        def ev():
+            e, k = ambient_event(rng); kinds.add(k); return e
+        if r < 0.36:
+            a = pick(); items = [ev(), a] + ([a] if rng.random() < 0.5 else []); shape = "event-then-call"
+        elif r < 0.50:
+            items = [ev(), ev()] + [pick() for _ in range(rng.randint(2, 5))]; shape = "events-then-calls"
+        elif r < 0.64:
+            a = pick(); items = [a, ev(), pick(), a]; shape = "interleaved"
+        elif r < 0.78 and extreme:
+            x = rng.choice(extreme); op = x.line.split(None, 1)[0]; items = [x, pick(op), pick()] + ([x] if rng.random() < 0.3 else []); shape = "after-extreme-request"
+        elif r < 0.90:
+            a = pick(); items = [pick() for _ in range(rng.randint(2, 4))]; items.insert(rng.randrange(len(items) + 1), a); items.append(a); shape = "plain-history"
+        else:
+            a = pick("logspace") if "logspace" in by else pick(); items = [ev(), a, grid_twin(a), a] if a.line.startswith("logspace") else [ev(), a, a]; shape = "event-then-both-grids"
+        subs = [x if isinstance(x, str) else x.line for x in items]
+        tols = [(x.tol or TOL) for x in items if not isinstance(x, str)]
+        tol = (max(a for a, _ in tols), max(b for _, b in tols))
+        cs.append(Case(seq_line(subs), ("seq", "session-" + shape) + tuple("amb-" + k for k in sorted(kinds)), tol=tol))
+    return cs
+
+
 def generate(rng, tier):
     cs = []
     big = tier != "quick"
@@ -567,11 +699,16 @@ def generate(rng, tier):
     cs += stat_cases(rng, 3000 if big else 260)
     cs += law_cases(rng, 3000 if big else 260)
     cs += wlaw_cases(rng, 1500 if big else 150)
+    # sessions: the requests above again, several per process, with the ambient state other code leaves behind
+    cs += session_cases(rng, list(cs), 8000 if big else 500, 400 if big else 90)
     return cs
 
 
 def nontrivial(c, io):
     t = c.line.split(); op = t[0]
+    if op == "seq":
+        subs = seq_parse(c.line); segs = [x.strip() for x in io.split("|")]
+        return len(segs) == len(subs) and any(nontrivial(Case(a), b) for a, b in zip(subs, segs) if not a.startswith("amb_"))
     if io.startswith(("EXIT", "CRASH")): return op in ("closest", "transpose", "workload")
     if op == "workload": return int(t[1]) > 0 and int(t[2]) % int(t[1]) != 0
     if op == "range": return (int(t[2]) - int(t[1])) % int(t[3]) != 0
@@ -588,11 +725,32 @@ def nontrivial(c, io):
     return len(t) > 3
 
 
+SESSIONS_SEEN = {}      # session line -> its answers (filled by predicates, used by the fresh-process stage in extra)
+
+
+def _short(line): return line if len(line) <= 70 else line[:67] + "..."
+
+
 def predicates(c, io):
     """S4: the property's own clauses evaluated on the implementation's output."""
     out = []
     t = c.line.split(); op = t[0]
     if io.startswith(("CRASH", "SANITIZER", "TIMEOUT", "HARNESSERR")): return out   # reported generically
+    if op == "seq":
+        # every answer of a session must meet the clauses of its own request (same signatures as for a single request), whatever came before
+        subs = seq_parse(c.line)
+        if io.startswith("EXIT"): return [("session:exit", f"a session of {len(subs)} valid requests terminated the process")]
+        segs = [x.strip() for x in io.split("|")]
+        if len(segs) != len(subs): return [("session:shape", f"{len(subs)} requests, {len(segs)} answers")]
+        SESSIONS_SEEN.setdefault(c.line, segs)      # the first evaluation is the main build's (later ones: other compilers in the thorough tier)
+        for k, (sl, sg) in enumerate(zip(subs, segs)):
+            if sl.startswith("amb_"):
+                if sg != ".": out.append(("session:shape", f"event {sl} answered {sg[:40]}"))
+                continue
+            hist = "; ".join(_short(h) for h in subs[:k]) or "nothing"
+            for sig, msg in predicates(Case(sl), sg):
+                out.append((sig, f"call {k + 1} of a session (earlier in this process: {hist}): {msg}"))
+        return out
     v = parse_vals(io)
     if op == "workload":
         w, tasks = int(t[1]), int(t[2])
@@ -837,3 +995,24 @@ def predicates(c, io):
             else: exp = [len(a)] + [y for pr in zip(a, b) for y in enc(list(pr))]
         if got != exp: out.append((op + ":definition", f"{op[:-2]} at double disagrees with its element-wise definition: expected {exp[:12]}, got {got[:12]}"))
     return out
+
+
+def extra(ctx, rng):
+    """Fresh-process stage: every request that was answered inside a session is run again as a case of its own (the harness starts each
+    case line from the pristine ambient state) and the two answers of the implementation must be the same doubles / integers."""
+    import vcheck
+    if not SESSIONS_SEEN or not ctx.get("exe"): return {}
+    singles = sorted({sl for line in SESSIONS_SEEN for sl in seq_parse(line) if not sl.startswith("amb_")})
+    outs = [vcheck.canon_impl(l) for l in vcheck.run_exe(ctx["exe"], singles, ctx["work"], "impl_fresh", env=globals().get("HARNESS_ENV"))]
+    fresh = dict(zip(singles, outs)); viol = []; compared = 0
+    for line, segs in SESSIONS_SEEN.items():
+        subs = seq_parse(line)
+        for k, (sl, sg) in enumerate(zip(subs, segs)):
+            if sl.startswith("amb_"): continue
+            compared += 1
+            if sg.split() != fresh[sl].split():
+                hist = "; ".join(_short(h) for h in subs[:k]) or "nothing"
+                viol.append({"sig": f"session:fresh-process:{sl.split()[0]}", "case": line, "impl": " | ".join(segs)[:2000], "model": "",
+                             "msg": f"call {k + 1} of a session (earlier in this process: {hist}) answered {_short(sg)}, the same request {_short(sl)} alone in a pristine process answers {_short(fresh[sl])}"})
+    SESSIONS_SEEN.clear()
+    return {"violations": viol, "fresh_process_stage": {"session_answers_compared_with_a_pristine_process": compared, "different": len(viol)}}
